@@ -19,6 +19,7 @@ UNSUPPORTED = [
     "(?=a)", "(?!zz)", "(?<=a)", "(?<!a)", "\\1", "(?P=g1)", "\\s", "\\S", "\\D", "\\W",
     "[\\s]", "[\\S]", "[\\D]", "[\\Wa]", "[^\\s]", "[^\\Da]", "[a\\s]",
     "(?>ab)", "a++", "a*+", "a?+", "a{1,2}+", "(?:ab)++", "[ab]*+",
+    "(?(1)b|c)", "(?(g1)>)",          # conditionals on a group (made optional below)
 ]
 
 
@@ -249,6 +250,13 @@ def _splice_unsupported(ast, r):
         first = {"k": "group", "kind": "named", "name": "g1",
                  "body": {"k": "seq", "items": [{"k": "lit", "c": "a"}]}}
         ast["body"] = {"k": "seq", "items": [first, body]}
+    if text.startswith("(?("):
+        # a conditional needs its group; keep the group *optional* so that both arms are reachable
+        body = ast["body"]
+        first = {"k": "group", "kind": "named", "name": "g1",
+                 "body": {"k": "seq", "items": [{"k": "lit", "c": "<"}]}}
+        first = {"k": "rep", "body": first, "min": 0, "max": 1, "lazy": False, "form": "?"}
+        ast["body"] = {"k": "seq", "items": [first, body]}
 
 
 # ------------------------------------------------------------------ rendering
@@ -325,6 +333,22 @@ def _r(n, top=False):
 
 
 # ------------------------------------------------------------------ features
+
+def unsupported_texts(ast):
+    out = set()
+
+    def walk(n):
+        if isinstance(n, dict):
+            if n.get("k") == "unsup":
+                out.add(n["text"])
+            for v in n.values():
+                walk(v)
+        elif isinstance(n, list):
+            for v in n:
+                walk(v)
+    walk(ast)
+    return out
+
 
 def features(ast):
     f = set()
@@ -649,7 +673,9 @@ def member_safe(ast, max_reps=3):
         k = x["k"]
         if k == "rep":
             n[0] += 1
-            if x["body"]["k"] not in ("lit", "esc", "any", "cat", "class", "unsup"):
+            if x["body"]["k"] == "group" and (x["min"], x["max"]) == (0, 1):
+                walk(x["body"])      # an optional group repeats nothing: as safe as its body
+            elif x["body"]["k"] not in ("lit", "esc", "any", "cat", "class", "unsup"):
                 ok[0] = False
             if x["max"] is None and x["min"] > 64:
                 ok[0] = False
